@@ -1,4 +1,5 @@
 import XrsVerif.Proofs.PolygonizeLosslessScan
+import XrsVerif.Proofs.PolygonizeLosslessAreaScan
 import XrsVerif.Proofs.PolygonizeLosslessRanks
 /-
   C15, losslessness of `Polygonize.scan` on the region array of `calculateRegions` (`scan_regions_lossless`):
@@ -38,6 +39,49 @@ theorem connP_close {V : Type} (nx : Nat) (conn8 : Bool) (close : V → V → Bo
   | symm _ ih => exact hsymm _ _ ih
   | trans _ _ ih1 ih2 => exact htrans _ _ _ ih1 ih2
 
+section facts
+variable {V : Type} (nx ny : Nat) (conn8 : Bool) (close : V → V → Bool) (values : Nat → V) (mask : Nat → Bool)
+  (hnx : 0 < nx) (hsymm : ∀ a b, close a b = true → close b a = true)
+  (htrans : ∀ a b c, close a b = true → close b c = true → close a c = true)
+include hnx hsymm htrans
+
+theorem scanRegs_ranked : Ranked (scanRegs nx ny conn8 close values mask) (nx * ny) := by
+  intro ij hij r hr h
+  rw [scanRegs_eq nx ny conn8 close values mask hij] at h
+  obtain ⟨p, hp, e⟩ := regionId_ranked nx ny conn8 close values mask hnx hsymm htrans hij hr h
+  exact ⟨p, hp, by rw [scanRegs_eq nx ny conn8 close values mask (show p < nx * ny by omega)]; exact e⟩
+
+theorem scanRegs_link : ∀ p q, Link nx conn8 close values mask (nx * ny) p q →
+    p < nx * ny ∧ q ∈ back nx conn8 p ∧
+      scanRegs nx ny conn8 close values mask p = scanRegs nx ny conn8 close values mask q := by
+  intro p q hl
+  have hq : q < nx * ny := Nat.lt_trans (back_lt nx conn8 hnx hl.2.1) hl.1
+  refine ⟨hl.1, hl.2.1, ?_⟩
+  rw [scanRegs_eq nx ny conn8 close values mask hl.1, scanRegs_eq nx ny conn8 close values mask hq]
+  exact ((regionId_spec nx ny conn8 close values mask hnx hsymm htrans hl.1 hq).2.2 hl.2.2.1 hl.2.2.2.1).mpr
+    (Cl.base hl)
+
+theorem scanRegs_conn : ∀ p q, p < nx * ny → q < nx * ny →
+    scanRegs nx ny conn8 close values mask p = scanRegs nx ny conn8 close values mask q →
+    scanRegs nx ny conn8 close values mask p ≠ 0 →
+    Cl (fun p q => Link nx conn8 close values mask (nx * ny) p q) p q := by
+  intro p q hp hq he hne
+  rw [scanRegs_eq nx ny conn8 close values mask hp] at he hne
+  rw [scanRegs_eq nx ny conn8 close values mask hq] at he
+  have sp := regionId_spec nx ny conn8 close values mask hnx hsymm htrans hp hq
+  have sq := regionId_spec nx ny conn8 close values mask hnx hsymm htrans hq hp
+  have hmp : mask p = true := by
+    cases hm : mask p with
+    | true => rfl
+    | false => exact absurd (sp.1 hm) hne
+  have hmq : mask q = true := by
+    cases hm : mask q with
+    | true => rfl
+    | false => exact absurd (he.trans (sq.1 hm)) hne
+  exact (sp.2.2 hmp hmq).mp he
+
+end facts
+
 theorem scan_regions_lossless {V : Type} (nx ny : Nat) (conn8 : Bool) (close : V → V → Bool)
     (values : Nat → V) (mask : Nat → Bool) (hnx : 0 < nx)
     (hsymm : ∀ a b, close a b = true → close b a = true)
@@ -55,38 +99,9 @@ theorem scan_regions_lossless {V : Type} (nx ny : Nat) (conn8 : Bool) (close : V
   intro sc rid
   have hreq : ∀ ij, ij < nx * ny → scanRegs nx ny conn8 close values mask ij = rid ij :=
     fun ij hij => scanRegs_eq nx ny conn8 close values mask hij
-  have hrank : Ranked (scanRegs nx ny conn8 close values mask) (nx * ny) := by
-    intro ij hij r hr h
-    rw [hreq ij hij] at h
-    obtain ⟨p, hp, e⟩ := regionId_ranked nx ny conn8 close values mask hnx hsymm htrans hij hr h
-    exact ⟨p, hp, by rw [hreq p (by omega)]; exact e⟩
-  have hE : ∀ p q, Link nx conn8 close values mask (nx * ny) p q →
-      p < nx * ny ∧ q ∈ back nx conn8 p ∧
-        scanRegs nx ny conn8 close values mask p = scanRegs nx ny conn8 close values mask q := by
-    intro p q hl
-    have hq : q < nx * ny := Nat.lt_trans (back_lt nx conn8 hnx hl.2.1) hl.1
-    refine ⟨hl.1, hl.2.1, ?_⟩
-    rw [hreq p hl.1, hreq q hq]
-    exact ((regionId_spec nx ny conn8 close values mask hnx hsymm htrans hl.1 hq).2.2 hl.2.2.1 hl.2.2.2.1).mpr
-      (Cl.base hl)
-  have hconn : ∀ p q, p < nx * ny → q < nx * ny →
-      scanRegs nx ny conn8 close values mask p = scanRegs nx ny conn8 close values mask q →
-      scanRegs nx ny conn8 close values mask p ≠ 0 →
-      Cl (fun p q => Link nx conn8 close values mask (nx * ny) p q) p q := by
-    intro p q hp hq he hne
-    rw [hreq p hp] at he hne
-    rw [hreq q hq] at he
-    have sp := regionId_spec nx ny conn8 close values mask hnx hsymm htrans hp hq
-    have sq := regionId_spec nx ny conn8 close values mask hnx hsymm htrans hq hp
-    have hmp : mask p = true := by
-      cases hm : mask p with
-      | true => rfl
-      | false => exact absurd (sp.1 hm) hne
-    have hmq : mask q = true := by
-      cases hm : mask q with
-      | true => rfl
-      | false => exact absurd (he.trans (sq.1 hm)) hne
-    exact (sp.2.2 hmp hmq).mp he
+  have hrank := scanRegs_ranked nx ny conn8 close values mask hnx hsymm htrans
+  have hE := scanRegs_link nx ny conn8 close values mask hnx hsymm htrans
+  have hconn := scanRegs_conn nx ny conn8 close values mask hnx hsymm htrans
   have main := scan_lossless nx ny hnx (scanRegs nx ny conn8 close values mask) conn8
     (fun p q => Link nx conn8 close values mask (nx * ny) p q) hE hconn values hrank
   rw [← scan_eq] at main
@@ -194,5 +209,33 @@ theorem scan_polygons_components {V : Type} (nx ny : Nat) (conn8 : Bool) (close 
       refine ⟨regionId nx ny conn8 close values mask (X + Y * nx) - 1, by omega, ?_, ?_⟩
       · rw [(h6 _ (by omega) X Y hX hY).1, beq_iff_eq]; omega
       · rw [(h6 _ (by omega) X' Y' hX' hY').1, beq_iff_eq]; omega
+
+/-- area and orientation of the polygons of `scan` -/
+theorem scan_regions_area {V : Type} (nx ny : Nat) (conn8 : Bool) (close : V → V → Bool)
+    (values : Nat → V) (mask : Nat → Bool) (hnx : 0 < nx)
+    (hsymm : ∀ a b, close a b = true → close b a = true)
+    (htrans : ∀ a b c, close a b = true → close b c = true → close a c = true)
+    (sc : Scan V) (hsc : scan nx ny conn8 close values mask = sc) :
+    ∀ k, k < sc.polys.length →
+      ((sc.polys.getD k []).map area2).sum =
+        2 * (((List.range (nx * ny)).countP
+          (fun p => regionId nx ny conn8 close values mask p == k + 1) : Nat) : Int) ∧
+      ∃ ext holes, sc.polys.getD k [] = ext :: holes ∧ 0 < area2 ext ∧ ∀ h ∈ holes, area2 h < 0 := by
+  intro k hk
+  have hlen := (scan_regions_lossless nx ny conn8 close values mask hnx hsymm htrans).2.1
+  rw [hsc] at hlen
+  have := scan_area nx ny hnx (scanRegs nx ny conn8 close values mask) conn8
+    (fun p q => Link nx conn8 close values mask (nx * ny) p q)
+    (scanRegs_link nx ny conn8 close values mask hnx hsymm htrans)
+    (scanRegs_conn nx ny conn8 close values mask hnx hsymm htrans) values
+    (scanRegs_ranked nx ny conn8 close values mask hnx hsymm htrans) sc
+    (by rw [← scan_eq]; exact hsc) k (by omega)
+  obtain ⟨a, b⟩ := this
+  refine ⟨?_, b⟩
+  rw [a]
+  congr 2
+  apply List.countP_congr
+  intro p hp
+  rw [scanRegs_eq nx ny conn8 close values mask (List.mem_range.mp hp)]
 
 end XrsVerif.Polygonize
